@@ -299,6 +299,8 @@ def encode_number(
     """
     if value is None:
         # Set to "not available" value
+        if bit_length == 1:
+            raise ValueError("A 1-bit field has no 'not available' value")
         if bit_length <= 3:
             return (1 << bit_length) - 1
         elif signed:
